@@ -8,6 +8,10 @@ use crate::Timestamp;
 /// fit in a Jiff timestamp, then a warning message is logged and `None` is
 /// returned.
 pub(crate) fn last_modified_from_path(path: &Path) -> Option<Timestamp> {
+    #[cfg(jiff_verif)]
+    if crate::verif::fault("fs.mtime.open") {
+        return None;
+    }
     let file = match File::open(path) {
         Ok(file) => file,
         Err(_err) => {
@@ -33,6 +37,10 @@ pub(crate) fn last_modified_from_file(
     _path: &Path,
     file: &File,
 ) -> Option<Timestamp> {
+    #[cfg(jiff_verif)]
+    if crate::verif::fault("fs.mtime.metadata") {
+        return None;
+    }
     let md = match file.metadata() {
         Ok(md) => md,
         Err(_err) => {
